@@ -253,3 +253,45 @@ pub open spec fn adjacent(a: WriteEntry, b: WriteEntry, format: &FormatAny) -> b
 pub open spec fn contiguous(g: Seq<WriteEntry>, format: &FormatAny) -> bool {
     forall|i: int, j: int| 0 <= i && j == i + 1 && j < g.len() ==> #[trigger] adjacent(g[i], g[j], format)
 }
+
+// ---- shard ownership (C02 / C19: worker w owns shards w, w+W, w+2W, ...) ----
+// the shards of a worker context are numbered by their position in `sharded_buffers`
+pub open spec fn shards_wf(ctx: &WorkerContext) -> bool {
+    forall|i: int| 0 <= i < ctx.sharded_buffers@.len() ==> (#[trigger] ctx.sharded_buffers@[i]).id() == i
+}
+// the j-th shard of worker w's stride when there are `count` workers
+pub open spec fn owned(w: int, count: int, j: int) -> int { w + j * count }
+
+pub proof fn lemma_owned_step(w: int, count: int, j: int)
+    ensures owned(w, count, j + 1) == owned(w, count, j) + count, owned(w, count, 0) == w,
+{
+    assert((j + 1) * count == j * count + count) by (nonlinear_arith);
+}
+pub proof fn lemma_owned_mono(w: int, count: int, j: int, k: int)
+    requires count > 0, owned(w, count, j) < owned(w, count, k),
+    ensures j < k,
+{
+    if j >= k {
+        assert(j * count >= k * count) by (nonlinear_arith) requires j >= k, count > 0;
+    }
+}
+// the strides of workers 0..count partition the shard numbers: every shard belongs to the stride of exactly one worker
+pub proof fn lemma_every_shard_owned(s: int, count: int)
+    requires count > 0, s >= 0,
+    ensures 0 <= s % count < count, s / count >= 0, owned(s % count, count, s / count) == s,
+{
+    vstd::arithmetic::div_mod::lemma_fundamental_div_mod(s, count);
+    vstd::arithmetic::div_mod::lemma_mod_bound(s, count);
+    vstd::arithmetic::div_mod::lemma_div_pos_is_pos(s, count);
+    assert(count * (s / count) == (s / count) * count) by (nonlinear_arith);
+}
+pub proof fn lemma_owner_unique(w1: int, w2: int, count: int, j1: int, j2: int)
+    requires 0 <= w1 < count, 0 <= w2 < count, owned(w1, count, j1) == owned(w2, count, j2),
+    ensures w1 == w2, j1 == j2,
+{
+    if j1 < j2 {
+        assert(j2 * count >= j1 * count + count) by (nonlinear_arith) requires j1 < j2, count > 0;
+    } else if j2 < j1 {
+        assert(j1 * count >= j2 * count + count) by (nonlinear_arith) requires j2 < j1, count > 0;
+    }
+}
